@@ -1,1 +1,465 @@
-//! m4 — reference model (to be written)
+//! M4 — naive reference kernels (DESIGN §3).
+//!
+//! Deliberately boring code. Uses only `dusk_bls12_381` field / group /
+//! pairing primitives and shares no code with dusk-plonk.
+//!
+//! Conventions: a polynomial is a coefficient vector, lowest degree first;
+//! "the domain of size n" is {ω^0..ω^{n-1}} with ω the n-th root of unity
+//! obtained by squaring `ROOT_OF_UNITY` (a 2^32-th root) down; the coset is
+//! g·ω^i with g = `GENERATOR`.
+
+use dusk_bls12_381::{
+    pairing, BlsScalar, G1Affine, G1Projective, G2Affine, G2Projective, GENERATOR, ROOT_OF_UNITY, TWO_ADACITY,
+};
+use dusk_bytes::DeserializableSlice;
+
+pub type Fe = BlsScalar;
+
+fn zero() -> Fe {
+    BlsScalar::zero()
+}
+fn one() -> Fe {
+    BlsScalar::one()
+}
+
+// ---------------------------------------------------------------------------
+// field helpers
+// ---------------------------------------------------------------------------
+
+/// `b^e` by square-and-multiply over the bits of `e` (own code).
+pub fn pow_u64(b: Fe, e: u64) -> Fe {
+    let mut acc = one();
+    for i in (0..64).rev() {
+        acc = acc * acc;
+        if (e >> i) & 1 == 1 {
+            acc = acc * b;
+        }
+    }
+    acc
+}
+
+pub fn inv(x: Fe) -> Fe {
+    x.invert().expect("m4: inverse of zero")
+}
+
+pub fn is_pow2(n: usize) -> bool {
+    n != 0 && (n & (n - 1)) == 0
+}
+
+pub fn log2(n: usize) -> u32 {
+    assert!(is_pow2(n), "m4: domain size must be a power of two");
+    n.trailing_zeros()
+}
+
+/// Primitive n-th root of unity, n = 2^k ≤ 2^32.
+pub fn root_of_unity(n: usize) -> Fe {
+    let k = log2(n);
+    assert!(k <= TWO_ADACITY);
+    let mut w = ROOT_OF_UNITY;
+    for _ in k..TWO_ADACITY {
+        w = w * w;
+    }
+    w
+}
+
+/// Coset generator g.
+pub fn coset_gen() -> Fe {
+    GENERATOR
+}
+
+/// The domain elements ω^0..ω^{n-1} by repeated multiplication.
+pub fn domain_elements(n: usize) -> Vec<Fe> {
+    let w = root_of_unity(n);
+    let mut out = Vec::with_capacity(n);
+    let mut x = one();
+    for _ in 0..n {
+        out.push(x);
+        x = x * w;
+    }
+    out
+}
+
+// ---------------------------------------------------------------------------
+// polynomials (schoolbook)
+// ---------------------------------------------------------------------------
+
+/// Drop trailing (highest-degree) zero coefficients.
+pub fn trim(v: &[Fe]) -> Vec<Fe> {
+    let mut v = v.to_vec();
+    while v.last().map_or(false, |c| *c == zero()) {
+        v.pop();
+    }
+    v
+}
+
+/// Equality as polynomials.
+pub fn poly_eq(a: &[Fe], b: &[Fe]) -> bool {
+    trim(a) == trim(b)
+}
+
+/// Horner evaluation.
+pub fn horner(c: &[Fe], x: Fe) -> Fe {
+    let mut acc = zero();
+    for k in c.iter().rev() {
+        acc = acc * x + *k;
+    }
+    acc
+}
+
+pub fn poly_add(a: &[Fe], b: &[Fe]) -> Vec<Fe> {
+    let n = a.len().max(b.len());
+    let mut out = vec![zero(); n];
+    for i in 0..n {
+        if i < a.len() {
+            out[i] = out[i] + a[i];
+        }
+        if i < b.len() {
+            out[i] = out[i] + b[i];
+        }
+    }
+    out
+}
+
+pub fn poly_neg(a: &[Fe]) -> Vec<Fe> {
+    a.iter().map(|c| -*c).collect()
+}
+
+pub fn poly_sub(a: &[Fe], b: &[Fe]) -> Vec<Fe> {
+    poly_add(a, &poly_neg(b))
+}
+
+pub fn poly_scale(a: &[Fe], s: Fe) -> Vec<Fe> {
+    a.iter().map(|c| *c * s).collect()
+}
+
+pub fn poly_mul(a: &[Fe], b: &[Fe]) -> Vec<Fe> {
+    if a.is_empty() || b.is_empty() {
+        return vec![];
+    }
+    let mut out = vec![zero(); a.len() + b.len() - 1];
+    for (i, x) in a.iter().enumerate() {
+        for (j, y) in b.iter().enumerate() {
+            out[i + j] = out[i + j] + *x * *y;
+        }
+    }
+    out
+}
+
+/// `a + s` (constant term).
+pub fn poly_add_scalar(a: &[Fe], s: Fe) -> Vec<Fe> {
+    poly_add(a, &[s])
+}
+
+/// Synthetic division of `a` by `(X - z)`: `(quotient, remainder)` with
+/// `a = quotient·(X − z) + remainder`. The result is checked by
+/// re-multiplication before it is returned.
+pub fn div_linear(a: &[Fe], z: Fe) -> (Vec<Fe>, Fe) {
+    if a.is_empty() {
+        return (vec![], zero());
+    }
+    let d = a.len() - 1; // formal degree
+    let mut q = vec![zero(); d];
+    // q_{d-1} = a_d ; q_{k-1} = a_k + z q_k
+    let mut carry = zero();
+    for k in (1..=d).rev() {
+        let t = a[k] + carry;
+        q[k - 1] = t;
+        carry = z * t;
+    }
+    let r = a[0] + carry;
+    // re-multiplication check
+    let back = poly_add(&poly_mul(&q, &[-z, one()]), &[r]);
+    assert!(poly_eq(&back, a), "m4: synthetic division self-check failed");
+    (q, r)
+}
+
+// ---------------------------------------------------------------------------
+// DFT by definition
+// ---------------------------------------------------------------------------
+
+/// Evaluation of the FULL polynomial `c` at ω^i for every i < n.
+pub fn dft(c: &[Fe], n: usize) -> Vec<Fe> {
+    let xs = domain_elements(n);
+    xs.iter().map(|x| horner(c, *x)).collect()
+}
+
+/// Evaluation of the full polynomial at ω^i for the listed indices.
+pub fn dft_at(c: &[Fe], n: usize, idx: &[usize]) -> Vec<Fe> {
+    let w = root_of_unity(n);
+    idx.iter().map(|i| horner(c, pow_u64(w, *i as u64))).collect()
+}
+
+/// Evaluation of the full polynomial at g·ω^i for every i < n.
+pub fn coset_dft(c: &[Fe], n: usize) -> Vec<Fe> {
+    let g = coset_gen();
+    domain_elements(n).iter().map(|x| horner(c, g * *x)).collect()
+}
+
+pub fn coset_dft_at(c: &[Fe], n: usize, idx: &[usize]) -> Vec<Fe> {
+    let w = root_of_unity(n);
+    let g = coset_gen();
+    idx.iter().map(|i| horner(c, g * pow_u64(w, *i as u64))).collect()
+}
+
+/// Inverse DFT by the definition: c_i = (1/n) Σ_j e_j ω^{-ij}, the sum
+/// running over every supplied evaluation (missing ones count as zero).
+pub fn idft(e: &[Fe], n: usize) -> Vec<Fe> {
+    let idx: Vec<usize> = (0..n).collect();
+    idft_at(e, n, &idx)
+}
+
+pub fn idft_at(e: &[Fe], n: usize, idx: &[usize]) -> Vec<Fe> {
+    let w_inv = inv(root_of_unity(n));
+    let n_inv = inv(Fe::from(n as u64));
+    idx.iter().map(|i| horner(e, pow_u64(w_inv, *i as u64)) * n_inv).collect()
+}
+
+/// Interpolation on the coset: coefficients c with c(g ω^j) = e_j, i.e.
+/// c_i = g^{-i} · idft(e)_i.
+pub fn coset_idft(e: &[Fe], n: usize) -> Vec<Fe> {
+    let idx: Vec<usize> = (0..n).collect();
+    coset_idft_at(e, n, &idx)
+}
+
+pub fn coset_idft_at(e: &[Fe], n: usize, idx: &[usize]) -> Vec<Fe> {
+    let g_inv = inv(coset_gen());
+    idft_at(e, n, idx).iter().zip(idx).map(|(c, i)| *c * pow_u64(g_inv, *i as u64)).collect()
+}
+
+// ---------------------------------------------------------------------------
+// second, independent route for big sizes: recursive radix-2 (decimation in
+// time, no bit reversal, no in-place butterflies)
+// ---------------------------------------------------------------------------
+
+/// out[k] = Σ_j a_j w^{jk}; `a.len()` a power of two and `w` a primitive
+/// `a.len()`-th root of unity.
+pub fn fft_rec(a: &[Fe], w: Fe) -> Vec<Fe> {
+    let n = a.len();
+    if n == 1 {
+        return vec![a[0]];
+    }
+    let even: Vec<Fe> = a.iter().step_by(2).copied().collect();
+    let odd: Vec<Fe> = a.iter().skip(1).step_by(2).copied().collect();
+    let w2 = w * w;
+    let e = fft_rec(&even, w2);
+    let o = fft_rec(&odd, w2);
+    let mut out = vec![zero(); n];
+    let mut t = one();
+    for k in 0..n / 2 {
+        let x = t * o[k];
+        out[k] = e[k] + x;
+        out[k + n / 2] = e[k] - x;
+        t = t * w;
+    }
+    out
+}
+
+/// Fold a coefficient vector modulo X^n − 1 (exact for evaluation on the
+/// n-th roots of unity); shorter vectors are zero padded.
+pub fn fold(c: &[Fe], n: usize) -> Vec<Fe> {
+    let mut out = vec![zero(); n];
+    for (i, x) in c.iter().enumerate() {
+        out[i % n] = out[i % n] + *x;
+    }
+    out
+}
+
+/// c_j · s^j
+pub fn scale_powers(c: &[Fe], s: Fe) -> Vec<Fe> {
+    let mut p = one();
+    c.iter()
+        .map(|x| {
+            let r = *x * p;
+            p = p * s;
+            r
+        })
+        .collect()
+}
+
+/// The four transforms through the recursive route. Semantics identical to
+/// `dft` / `coset_dft` / `idft` / `coset_idft` (full-vector definitions).
+pub fn fast_dft(c: &[Fe], n: usize) -> Vec<Fe> {
+    fft_rec(&fold(c, n), root_of_unity(n))
+}
+pub fn fast_coset_dft(c: &[Fe], n: usize) -> Vec<Fe> {
+    fft_rec(&fold(&scale_powers(c, coset_gen()), n), root_of_unity(n))
+}
+pub fn fast_idft(e: &[Fe], n: usize) -> Vec<Fe> {
+    let n_inv = inv(Fe::from(n as u64));
+    fft_rec(&fold(e, n), inv(root_of_unity(n))).iter().map(|x| *x * n_inv).collect()
+}
+pub fn fast_coset_idft(e: &[Fe], n: usize) -> Vec<Fe> {
+    scale_powers(&fast_idft(e, n), inv(coset_gen()))
+}
+
+// ---------------------------------------------------------------------------
+// inversion, vanishing, Lagrange, barycentric
+// ---------------------------------------------------------------------------
+
+/// Per-element inversion; zeros stay zero.
+pub fn invert_each(v: &[Fe]) -> Vec<Fe> {
+    v.iter().map(|x| if *x == zero() { zero() } else { inv(*x) }).collect()
+}
+
+/// Z_H(τ) = τ^n − 1.
+pub fn vanishing(n: usize, tau: Fe) -> Fe {
+    pow_u64(tau, n as u64) - one()
+}
+
+/// L_i(τ) by the product definition Π_{j≠i} (τ − ω^j)/(ω^i − ω^j).
+pub fn lagrange_product(n: usize, i: usize, tau: Fe) -> Fe {
+    let xs = domain_elements(n);
+    let mut num = one();
+    let mut den = one();
+    for j in 0..n {
+        if j != i {
+            num = num * (tau - xs[j]);
+            den = den * (xs[i] - xs[j]);
+        }
+    }
+    num * inv(den)
+}
+
+/// L_i(τ) by the closed form Z_H(τ)·ω^i / (n (τ − ω^i)); on the domain the
+/// indicator of τ = ω^i.
+pub fn lagrange_closed(n: usize, i: usize, tau: Fe) -> Fe {
+    let wi = pow_u64(root_of_unity(n), i as u64);
+    if tau == wi {
+        return one();
+    }
+    let zh = vanishing(n, tau);
+    if zh == zero() {
+        return zero();
+    }
+    zh * wi * inv(Fe::from(n as u64) * (tau - wi))
+}
+
+/// All L_i(τ), product definition.
+pub fn lagrange_all(n: usize, tau: Fe) -> Vec<Fe> {
+    (0..n).map(|i| lagrange_product(n, i, tau)).collect()
+}
+
+/// Σ v_i L_i(τ) with L_i by the product definition; `evals` shorter than n
+/// are zero padded.
+pub fn eval_from_evals(n: usize, evals: &[Fe], tau: Fe) -> Fe {
+    assert!(evals.len() <= n);
+    let mut acc = zero();
+    for (i, v) in evals.iter().enumerate() {
+        if *v != zero() {
+            acc = acc + *v * lagrange_product(n, i, tau);
+        }
+    }
+    acc
+}
+
+/// Sparse form: Σ_k v_k L_{rows[k]}(τ).
+pub fn eval_sparse(n: usize, rows: &[usize], vals: &[Fe], tau: Fe) -> Fe {
+    assert_eq!(rows.len(), vals.len());
+    let mut acc = zero();
+    for (r, v) in rows.iter().zip(vals) {
+        acc = acc + *v * lagrange_product(n, *r, tau);
+    }
+    acc
+}
+
+// ---------------------------------------------------------------------------
+// KZG
+// ---------------------------------------------------------------------------
+
+pub fn g1_from_bytes(b: &[u8]) -> Option<G1Affine> {
+    if b.len() != 48 {
+        return None;
+    }
+    G1Affine::from_slice(b).ok()
+}
+
+pub fn g2_from_bytes(b: &[u8]) -> Option<G2Affine> {
+    if b.len() != 96 {
+        return None;
+    }
+    G2Affine::from_slice(b).ok()
+}
+
+/// The SRS as `PublicParameters::to_var_bytes` states it.
+pub struct Srs {
+    pub g: G1Affine,
+    pub h: G2Affine,
+    pub x_h: G2Affine,
+    pub powers: Vec<G1Affine>,
+}
+
+pub const OPENING_KEY_BYTES: usize = 48 + 96 + 96;
+
+pub fn parse_opening_key(b: &[u8]) -> Option<(G1Affine, G2Affine, G2Affine)> {
+    if b.len() < OPENING_KEY_BYTES {
+        return None;
+    }
+    Some((g1_from_bytes(&b[..48])?, g2_from_bytes(&b[48..144])?, g2_from_bytes(&b[144..240])?))
+}
+
+pub fn parse_srs(b: &[u8]) -> Option<Srs> {
+    let (g, h, x_h) = parse_opening_key(b)?;
+    let rest = &b[OPENING_KEY_BYTES..];
+    if rest.len() % 48 != 0 {
+        return None;
+    }
+    let mut powers = Vec::with_capacity(rest.len() / 48);
+    for c in rest.chunks(48) {
+        powers.push(g1_from_bytes(c)?);
+    }
+    Some(Srs { g, h, x_h, powers })
+}
+
+/// Commitment as the explicit sum Σ c_i·P_i (one scalar multiplication and
+/// one projective addition per coefficient). `None` when there are more
+/// coefficients than points.
+pub fn commit(points: &[G1Affine], coeffs: &[Fe]) -> Option<G1Projective> {
+    if coeffs.len() > points.len() {
+        return None;
+    }
+    let mut acc = G1Projective::identity();
+    for (c, p) in coeffs.iter().zip(points) {
+        acc = acc + G1Projective::from(*p) * *c;
+    }
+    Some(acc)
+}
+
+pub fn affine(p: G1Projective) -> G1Affine {
+    G1Affine::from(p)
+}
+
+/// The opening equation e(C − v·G, H) = e(W, X_H − z·H), two pairings.
+pub fn opening_holds(g: &G1Affine, h: &G2Affine, x_h: &G2Affine, c: &G1Affine, z: Fe, v: Fe, w: &G1Affine) -> bool {
+    let lhs_g1 = G1Affine::from(G1Projective::from(*c) - G1Projective::from(*g) * v);
+    let rhs_g2 = G2Affine::from(G2Projective::from(*x_h) - G2Projective::from(*h) * z);
+    pairing(&lhs_g1, h) == pairing(w, &rhs_g2)
+}
+
+/// e(a, h) == e(b, x_h): `a` is the secret multiple of `b`.
+pub fn is_next_power(a: &G1Affine, b: &G1Affine, h: &G2Affine, x_h: &G2Affine) -> bool {
+    pairing(a, h) == pairing(b, x_h)
+}
+
+/// Σ s^i C_i and Σ s^i e_i.
+pub fn flatten(parts: &[(Fe, G1Affine)], s: Fe) -> (G1Projective, Fe) {
+    let mut c = G1Projective::identity();
+    let mut e = zero();
+    let mut p = one();
+    for (ev, cm) in parts {
+        c = c + G1Projective::from(*cm) * p;
+        e = e + *ev * p;
+        p = p * s;
+    }
+    (c, e)
+}
+
+/// Σ s^i p_i as a polynomial.
+pub fn linear_combination(polys: &[Vec<Fe>], s: Fe) -> Vec<Fe> {
+    let mut acc: Vec<Fe> = vec![];
+    let mut p = one();
+    for q in polys {
+        acc = poly_add(&acc, &poly_scale(q, p));
+        p = p * s;
+    }
+    acc
+}
